@@ -2,6 +2,8 @@ use async_trait::async_trait;
 use d_engine_proto::common::Entry;
 use d_engine_proto::common::entry_payload::Payload;
 use std::sync::Arc;
+use std::sync::atomic::AtomicU64;
+use std::sync::atomic::Ordering;
 use tokio::sync::mpsc;
 use tokio::sync::watch;
 use tracing::debug;
@@ -55,6 +57,11 @@ where
 
     // Batch size for draining commit notifications
     max_batch_size: usize,
+
+    /// Highest log index already handed to the SM Worker. The worker applies asynchronously,
+    /// so `last_applied` may still lag behind it when the next commit notification arrives;
+    /// the next batch must start after this index, not after `last_applied`.
+    last_forwarded: AtomicU64,
 }
 
 #[async_trait]
@@ -134,6 +141,7 @@ where
             sm_apply_tx: deps.sm_apply_tx,
             shutdown_signal: deps.shutdown_signal,
             max_batch_size: deps.max_batch_size,
+            last_forwarded: AtomicU64::new(0),
         }
     }
 
@@ -153,7 +161,14 @@ where
         let Some(range) = pending_range else {
             return Ok(());
         };
-        let entries = self.raft_log.get_entries_range(range)?;
+        // Never hand an index to the SM Worker twice: skip what an earlier batch already forwarded
+        // but the worker has not applied yet.
+        let start = (*range.start()).max(self.last_forwarded.load(Ordering::Acquire).saturating_add(1));
+        let end = *range.end();
+        if start > end {
+            return Ok(());
+        }
+        let entries = self.raft_log.get_entries_range(start..=end)?;
 
         debug!(
             "[Node-{}] commit handler process batch, length = {}",
@@ -290,11 +305,16 @@ where
                 entries.len()
             );
 
+            let last_index = entries.last().map(|e| e.index);
+
             // Send entries to SM Worker without waiting for apply
             self.sm_apply_tx.send(entries).map_err(|e| {
                 error!("[Node-{}] SM Worker channel closed: {:?}", self.my_id, e);
                 crate::Error::Fatal(format!("SM Worker channel closed: {e:?}"))
             })?;
+            if let Some(index) = last_index {
+                self.last_forwarded.fetch_max(index, Ordering::AcqRel);
+            }
         }
         Ok(())
     }
